@@ -161,6 +161,9 @@ DevEntries(pat, tr, i) ==
    ELSE Dev(e.v, tr.m[One(h)].v, e.d)) \o DevEntries(pat, tr, i + 1)
 Dev(pat, tr, d) ==
   IF Match(pat, tr) THEN <<>>
+  \* as-implemented reading (pretty's SEN writer): a string whose text reads as a literal or a number is written bare and
+  \* re-read as that literal / number with the same text
+  ELSE IF pat.p = "leaf" /\ pat.t = "str" /\ tr.t \in {"bool", "num"} /\ tr.s = pat.s THEN <<[w |-> "as-implemented:sen-bare-literal", d |-> d]>>
   ELSE IF pat.p \in {"leaf", "nilarr", "nilobj"} THEN <<[w |-> IF pat.p = "leaf" /\ tr.t = pat.t THEN "value" ELSE <<"type", tr.t>>, d |-> d]>>
   ELSE IF pat.p = "arr" THEN (IF tr.t # "arr" THEN <<[w |-> <<"type", tr.t>>, d |-> d]>>
                               ELSE IF Len(tr.a) # Len(pat.a) THEN <<[w |-> "length", d |-> d]>> ELSE DevElems(pat.a, tr.a, 1, d))
